@@ -157,7 +157,8 @@ def run(ctx):
         "GEOSClipByRect: geos_c.h documents 'not guaranteed to return valid results' — only the point set closure(A ∩ interior(rect)) is compared",
         "the noding / labelling / ring assembly of OverlayNG and the fallback ladder of OverlayNGRobust are not modelled: tied only by correspondence; which rung answered is observed from outside by re-running the public building blocks (statistics only)",
     ])
-    proved = ctx.prove(PROPS, extra_targets=(DRV,))
+    # translator tie: the three decision functions are regenerated from the current C++ and proved equal to Model/Overlay/Core.lean
+    proved = ctx.prove_generated([("overlay_core", "GeosModel/Generated/OverlayCore.lean", "GeosModel.Props.C03Gen")], PROPS, extra_targets=(DRV,))
     ok, out = verif.build_geos("rel")
     if not ok:
         ctx.violation("GEOS does not build with -DGEOS_VERIF", {"kind": "build-failure", "log": out[-3000:]}, nofail=True)
